@@ -366,6 +366,10 @@ def steer_prog(p):
 
 
 def steer_cases(cases, stats):
+    # (findings D1..D4 — bare element accesses as operands of Phi / delay / mem / array access — are repaired in /repo 53f7184:
+    # generated programs are no longer rewritten away from them; the rewriting stays available for a listed D-class finding)
+    if not any(k.get("id") in ("D1", "D2", "D3", "D4") for k in load_known("C18")):
+        return cases
     for c in cases:
         if "prog" in c and prog_in_known_class(c["prog"]):
             c["prog"] = steer_prog(c["prog"])
